@@ -266,6 +266,36 @@ func checkC20(c *Ctx) {
 			}
 		}
 	})
+	// the line-protocol parser must be handed the bytes read from the input file, untransformed
+	{
+		okBytes, found := false, false
+		allInstrs(rs, func(in ssa.Instruction) {
+			call, ok := in.(*ssa.Call)
+			if !ok {
+				return
+			}
+			f := call.Call.StaticCallee()
+			if f == nil || f.Object() == nil || f.Object().Pkg() == nil || !strings.Contains(f.Object().Pkg().Path(), "influxdb1-client/models") || !strings.HasPrefix(f.Name(), "ParsePoints") {
+				return
+			}
+			found = true
+			a0 := call.Call.Args[0]
+			if ex, ok := a0.(*ssa.Extract); ok && ex.Index == 0 {
+				if rc, ok := ex.Tuple.(*ssa.Call); ok && rc.Call.StaticCallee() != nil && rc.Call.StaticCallee().Name() == "ReadFile" && strings.HasSuffix(path(rc.Call.Args[0]), ".Input") {
+					okBytes = true
+				}
+			}
+			if !okBytes {
+				r.Ob("INPUT-SHAPE", "line protocol parser receives the input file's bytes", t.Pos(call.Pos()), false,
+					"the parser is given "+path(a0)+" instead of the contents of options.Input as read: any pre-processing of the raw bytes (line splitting, trimming) changes which point is built from records that the line-protocol grammar allows (quoted newlines, escapes)")
+			}
+		})
+		if okBytes {
+			r.Ob("INPUT-SHAPE", "line protocol parser receives the input file's bytes", t.Pos(rs.Pos()), true, "models.ParsePoints*(os.ReadFile(options.Input))")
+		} else if !found {
+			r.Ob("INPUT-SHAPE", "line protocol parser receives the input file's bytes", t.Pos(rs.Pos()), false, "no call to the influx line-protocol parser found")
+		}
+	}
 	for _, m := range []string{"NewPointFrom", "pts[0]", "Name", "Tags", "Fields", "Time"} {
 		r.Ob("INPUT-SHAPE", "line protocol input uses "+m, t.Pos(rs.Pos()), got[m], "measurement, tags, fields and time of the first parsed point")
 	}
